@@ -138,9 +138,12 @@ def make_cases(tier, seed, n_random=None, maxlen=None, long_n=None):
         gL, tok = shapes["nullable_unary"]
         cases.append(dict(kind="long", name="long:nullable_unary", g=gL, token=tok, n=n, positions=[n], heap="lifo"))
     else:
-        n = long_n or 150
         for j, (name, (gL, tok)) in enumerate(shapes.items()):
-            for pos in ([1, 60], [107, 108, 109], [n - 20], [n]):
+            # the exact oracle is cubic in the context length with a large constant on left-recursive shapes
+            slow = name in ("left_linear", "two_level")
+            n = long_n or (112 if slow else 150)
+            groups = ([1, 60], [109], [n]) if slow else ([1, 60], [107, 108, 109], [n - 20], [n])
+            for pos in groups:
                 cases.append(dict(kind="long", name="long:" + name, g=gL, token=tok, n=n, positions=pos,
                                   heap=["real", "fifo", "lifo", "random"][(j + pos[0]) % 4]))
     return cases
@@ -158,8 +161,8 @@ class Ctx:
         self.out["violations"].append(dict(
             obligation=ob, what=what, signature=sig(backend, what.split(":")[0], case["name"], case.get("heap")),
             replay=dict(grammar=bridge.fmt_grammar(case["g"]), semiring="Float", backend=backend, heap=case.get("heap"),
-                        rename=case.get("rename"), order=case.get("order"), argument=arg, observed=repr(got),
-                        expected=repr(exp), case=common.enc(case), **kw)))
+                        rename=case.get("rename"), order=case.get("order"), argument=arg, observed=lmspec.short(got),
+                        expected=lmspec.short(exp), case=common.enc(case), **kw)))
 
 
 def _patch_heaps(case):
@@ -387,13 +390,13 @@ def bounded(run):
              f"{4 if tier == 'quick' else 5} (one less when |V| > 2; viable or not) + contexts containing EOS; every token incl. EOS; chain rule for all x "
              f"of that length; tolerance rel 1e-7 + {AGENDA_ABS}/conditioning; variants: rule permutation, nonterminal renaming, "
              f"agenda tie-break policies fifo/lifo/random, PYTHONHASHSEED in the listed set; {nlong} long-context cases "
-             f"(rescaled variant, token probability 1e-3, length {115 if tier == 'quick' else 150}: weight ~1e-{345 if tier == 'quick' else 450}); "
+             f"(rescaled variant, token probability 1e-3, length {115 if tier == 'quick' else '150 (112 on the two left-recursive shapes)'}: weight ~1e-{345 if tier == 'quick' else 450}); "
              f"non-trivial = total weight > 0 (long: context weight below the double range); distinct = (grammar, variant, heap). "
              f"NOT covered: the rescaled parser's next-token weights BEFORE its internal normalisation (not observable without a "
              f"hook); Fraction weights; contexts longer than stated")
     seeds = (0, 1) if tier == "quick" else (0, 1, 2, 3)
     run.extra["hash_seeds"] = list(seeds)
-    engine.run_cases(run, "props.C04", "check_case", cases, hash_seeds=seeds, per_case_timeout=120,
+    engine.run_cases(run, "props.C04", "check_case", cases, hash_seeds=seeds, per_case_timeout=120 if tier == "quick" else 600,
                      split=(tier == "quick"))
 
 
